@@ -40,7 +40,7 @@ LEVEL = "exploration"
 TECHNIQUE = "stateful model-based histories (Hypothesis) against the real SecureSession on a virtual-time loop; server side and all frames built with an independent IP-Secure reference; freshness model + wire-log oracle"
 RULE = (
     "history = handshake (connect, SessionResponse, wrapped SessionStatus) with generated noise before / inside / after it, then up to 14 ops: wrapped frame (inner service from a catalogue of all service types, nested wrapper, remote diagnosis; "
-    "sequence mode next/skip/same/old/zero/big/max; flaw none/MAC/ciphertext/sequence field/session id/key), plain frame of any service, client send, idle 51..61 s, stop, reconnect; "
+    "sequence mode next/skip/same/old/zero/big/max; flaw none/MAC/ciphertext/sequence field/session id (wrapped for another id, or id field overwritten)/key), plain frame of any service, client send, idle 51..61 s, stop, reconnect; "
     "non-trivial = session initialised and at least one wrapped frame that must be rejected (replayed/old number, forged, forbidden or plain) was delivered after initialisation together with at least one that must be accepted; distinct by history"
 )
 LEVEL_TEXT = "Generated receive/send histories around the handshake are run against the real SecureSession in virtual time; the frames handed to callbacks and the bytes written to the transport are compared with a freshness model and with the independent reference implementation of the wrapper. Sampled, not exhaustive."
@@ -244,6 +244,8 @@ def execute(case):
                     raw[-1] ^= 0x01
                 elif flaw == "body":
                     raw[22] ^= 0x80
+                elif flaw == "sidfield":
+                    raw[6:8] = ((sid + 1) & 0xFFFF).to_bytes(2, "big")
                 elif flaw == "seqfield":
                     wire_seq = min(seq + 5, MAX_SEQ) if seq < MAX_SEQ else seq - 1
                     raw[8:14] = wire_seq.to_bytes(6, "big")
@@ -301,7 +303,7 @@ def _why(m, cands, foreign=False) -> str:
     if foreign:
         return "wrong-key"
     if m["flaw"] != "none":
-        return {"mac": "forged-mac", "body": "tampered-ciphertext", "seqfield": "tampered-sequence-field", "sid": "wrong-session-id", "key": "wrong-key"}[m["flaw"]]
+        return {"mac": "forged-mac", "body": "tampered-ciphertext", "seqfield": "tampered-sequence-field", "sid": "wrong-session-id", "sidfield": "tampered-session-id-field", "key": "wrong-key"}[m["flaw"]]
     if m["code"] in secureio.FORBIDDEN_WRAPPED:
         return "nested-wrapper" if m["code"] == 0x0950 else f"forbidden-service-{m['code']:04x}"
     if not m["parseable"]:
@@ -472,7 +474,7 @@ _INNER_FORBIDDEN = ["nested", "secure_wrapper_garbage", "remote_diag_request", "
 _INNER_RARE = ["status_close", "status_unauth", "status_timeout", "status_fail", "status_ok", "session_response", "session_request", "session_authenticate", "truncated", "unknown_service_0999", "disconnect_request", "routing_indication", "timer_notify_zero_mac"]
 _inner = st.one_of(st.sampled_from(_INNER_COMMON), st.sampled_from(_INNER_COMMON), st.sampled_from(_INNER_COMMON), st.sampled_from(_INNER_FORBIDDEN), st.sampled_from(_INNER_RARE), st.sampled_from(_CAT_NAMES))
 _mode = st.sampled_from(["next", "next", "next", "skip", "same", "same", "old", "zero", "big", "max"])
-_flaw = st.sampled_from(["none", "none", "none", "none", "mac", "body", "seqfield", "sid", "key"])
+_flaw = st.sampled_from(["none", "none", "none", "none", "none", "mac", "body", "seqfield", "sid", "sidfield", "key"])
 _dt = st.sampled_from([0, 0, 0, 1, 5, 100, 1000, 30000, 51000, 61000])
 _dt_short = st.sampled_from([0, 0, 1, 5, 100])
 _SEND = ["connect_request", "tunnelling_request", "connectionstate_request", "disconnect_request", "session_request", "tunnelling_ack", "description_request"]
